@@ -115,6 +115,8 @@ TrFileEnd ==
           <<(expect.faults /\ \E i \in 1..Len(expect.mustFail) : expect.mustFail[i].c = cur /\ expect.mustFail[i].f = e.f)
                => e.o = "failed", "FileEnd:unprocessable-file-not-reported-failed">>,
           <<e.o = "failed" => e.unfixedAll, "FileEnd:findings-of-failed-file-not-reported-unfixed">>,
+          <<e.findingsOk, "FileEnd:change-entry-carries-wrong-findings">>,
+          <<e.unfixedOk, "FileEnd:unfixed-finding-that-was-not-reported">>,
           <<(expect.files /\ e.o = "changed") => e.f \in ToSet(expect.mayChange), "FileEnd:file-not-selected-was-changed">>,
           <<(expect.sites /\ e.o = "changed") => ToSet(e.sites) \subseteq SiteMayOf(e.f), "FileEnd:site-not-permitted-was-rewritten">>,
           <<(expect.sites /\ e.o = "changed") => ToSet(e.clines) \subseteq SiteMayOf(e.f), "FileEnd:change-entry-for-unpermitted-line">>,
